@@ -218,7 +218,10 @@ def rebuild(defs, inputs=None, name="R"):
                     v = rd["value"]
                     if v.startswith("<"):
                         continue      # object-valued references: second pass, when every target exists
-                    setattr(s, rn, None if v == "N" else int(v))
+                    if rd.get("mode", "auto") != "auto":
+                        s.set_ref(rn, None if v == "N" else int(v), rd["mode"])
+                    else:
+                        setattr(s, rn, None if v == "N" else int(v))
                 except Exception as e:
                     problems.append("ref %s.%s: %r" % (path, rn, e))
             if sd.get("param"):
@@ -264,14 +267,18 @@ def ops_from_json(j):
     return [fix(o) for o in j["ops"]]
 
 
-def load_corpus(prop):
+def load_corpus(prop, world="struct"):
+    """the witnesses of corpus/<prop>/ written in the operations of `world` ("struct": structworld.Live, the default;
+    "items": itemworld.World)"""
     import os
     d = os.path.join(core.CORPUS_DIR, prop)
     out = []
     if os.path.isdir(d):
         for f in sorted(os.listdir(d)):
             if f.endswith(".json"):
-                out.append(ops_from_json(json.load(open(os.path.join(d, f)))))
+                j = json.load(open(os.path.join(d, f)))
+                if j.get("world", "struct") == world:
+                    out.append(ops_from_json(j) if world == "struct" else j["ops"])
     return out
 
 
@@ -385,12 +392,20 @@ def gen_next(rng, live, cfg, prev=None, focus=None):
         nm = rng.choice(W.REFS)
         if rng.random() < cfg.get("cross_names", 0.0):
             nm = rng.choice(W.CELLS + W.CHILD)
+        mode = None
+        if cfg.get("ref_modes") and rng.random() < cfg["ref_modes"]:
+            # the reference mode is a part of the definition that derived references take from their first definer
+            mode = rng.choice(["auto", "relative", "absolute"])
         if rng.random() < cfg.get("obj_refs", 0.0):
             # an object-valued reference: a cells (or a space) of the model
             tp, ts = rng.choice(spaces)
+            if mode in ("auto", "relative"):
+                tp, ts = path, s        # relative binding means something for targets in the defining space
             if list(ts.cells) and rng.random() < 0.8:
-                return ["set_ref", path, nm, ["obj", tp + "." + rng.choice(list(ts.cells))], "absolute"]
-            return ["set_ref", path, nm, ["obj", tp], "absolute"]
+                return ["set_ref", path, nm, ["obj", tp + "." + rng.choice(list(ts.cells))], mode or "absolute"]
+            return ["set_ref", path, nm, ["obj", tp], mode or "absolute"]
+        if mode is not None:
+            return ["set_ref", path, nm, rng.randint(0, 9), mode]
         return ["set_ref", path, nm, rng.randint(0, 9)]
     if k == "set_param":
         if ext and rng.random() < 0.7:
@@ -460,8 +475,16 @@ def gen_space_formula(rng, live, path, s):
 CLASH = [W.CHILD[0], W.CELLS[0], W.REFS[0], W.MREFS[1]]     # "X", "f", "r", "u": one small alphabet for every kind of name
 
 
-def clash_prefix(rng):
-    """a few spaces (chain, diamond or siblings, one of them with a child) to start a name-clash history"""
+def clash_prefix(rng, cfg=None):
+    """a few spaces (chain, diamond or siblings, one of them with a child) to start a name-clash history;
+    cfg["clash_wide"]: mostly one base with SEVERAL sub spaces (siblings, a chain below one of them), so that
+    what an edit of the base does to an earlier sub space and what it meets in a later one are different things"""
+    if cfg and cfg.get("clash_wide") and rng.random() < 0.7:
+        ops = [["new_space", "-", "A", []], ["new_space", "-", "B", ["A"]], ["new_space", "-", "C", ["A"]],
+               ["new_space", "-", "D", rng.choice([["A"], ["B"], ["C"], ["B", "C"], ["C", "B"], []])]]
+        if rng.random() < 0.3:
+            ops.append(["new_space", rng.choice(["A", "B", "C", "D"]), rng.choice(CLASH), []])
+        return ops
     ops = [["new_space", "-", "A", []], ["new_space", "-", "B", rng.choice([[], ["A"]])],
            ["new_space", "-", "C", rng.choice([[], ["A"], ["B"], ["A", "B"], ["B", "A"]])]]
     if rng.random() < 0.6:
@@ -481,6 +504,10 @@ def gen_clash(rng, live, cfg, prev=None, focus=None):
     paths = [p for p, _ in spaces]
     if not paths:
         return ["new_space", "-", rng.choice(W.TOP), []]
+    if cfg.get("clash_wide") and prev:
+        nxt = clash_followup(rng, live, prev, paths)
+        if nxt is not None:
+            return nxt
     path, s = rng.choice(spaces)
     cells = list(s.cells)
     k = rng.choices(["new_space", "del_space", "new_cells", "set_formula", "del_cells", "rename_cells", "add_bases",
@@ -563,6 +590,109 @@ def gen_clash(rng, live, cfg, prev=None, focus=None):
     return ["set_mref", rng.choice(CLASH), rng.randint(10, 19)]
 
 
+REQUESTS = ("set_ref", "new_cells", "new_space", "rename_cells", "add_bases")
+FOLLOW = "q"        # a name outside the clash alphabet: a member created and deleted again only to re-derive the sub spaces
+
+
+def clash_followup(rng, live, prev, paths):
+    """cfg["clash_wide"]: after a request for a name (accepted or refused - the generator does not know), edits of
+    the SAME space that only re-derive its sub spaces: an unrelated cells or reference is created and deleted again,
+    or an unrelated one is deleted.  A refused request that left something behind shows in the sub spaces then."""
+    last = prev[-1]
+    where = last[1]         # the space that was asked (for new_space: the parent; "-" is not a space)
+    if last[0] == "new_cells" and last[2] == FOLLOW:
+        return ["del_cells", last[1], FOLLOW] if rng.random() < 0.85 else None
+    if last[0] == "set_ref" and last[2] == FOLLOW:
+        return ["del_ref", last[1], FOLLOW] if rng.random() < 0.85 else None
+    if last[0] in REQUESTS and where in paths and rng.random() < 0.3:
+        s = live.space(where)
+        if FOLLOW in s.cells or FOLLOW in s._own_refs or FOLLOW in s.spaces:
+            return None
+        return ["new_cells", where, FOLLOW, F(0, 1)] if rng.random() < 0.6 else ["set_ref", where, FOLLOW, 1]
+    return None
+
+
+# ----------------------------------------------------------------------------- scenario family: refusals decided in a sub space
+#
+# Whether a member may be created in a space is decided by what the space AND every space deriving from it
+# use the name for.  When the space has several sub spaces, the answer may come from a later one while an
+# earlier one (and the space itself) would take the member - a refusal that is not decided before anything
+# is changed leaves the base and the earlier sub spaces changed (C11), and the next re-derivation puts the
+# member next to the one of another kind in the later sub space (C12).  The family enumerates
+# (shape of the sub spaces) x (which one holds the name, as which kind) x (a model-level reference of the name:
+# none / created before the member where that is allowed / created AFTER it) x (an earlier sub space holds an
+# own reference of the name or not) x (kind arriving in the base, and how), each followed by edits of the base
+# that only re-derive its sub spaces.  The oracles are the properties' own hooks; nothing about "must be
+# refused" is asserted.
+
+FAMILY_SHAPES = [
+    ("two siblings", [["new_space", "-", "B", ["A"]], ["new_space", "-", "C", ["A"]]], ["B", "C"]),
+    ("three siblings", [["new_space", "-", "B", ["A"]], ["new_space", "-", "C", ["A"]], ["new_space", "-", "D", ["A"]]],
+     ["C", "D"]),
+    ("chain", [["new_space", "-", "B", ["A"]], ["new_space", "-", "C", ["B"]]], ["B", "C"]),
+    ("diamond", [["new_space", "-", "B", ["A"]], ["new_space", "-", "C", ["A"]], ["new_space", "-", "D", ["B", "C"]]],
+     ["C", "D"]),
+]
+
+
+def family_member(kind, space, name, k=1):
+    if kind == "cells":
+        return ["new_cells", space, name, F(0, k)]
+    if kind == "ref":
+        return ["set_ref", space, name, 3 + k]
+    return ["new_space", space, name, []]
+
+
+def refusal_family():
+    """[(label, ops)]: A is the base that is asked for the name `x`"""
+    out = []
+    x = "x"
+    rederive = [["new_cells", "A", FOLLOW, F(0, 2)], ["del_cells", "A", FOLLOW], ["set_ref", "A", "y", 3], ["del_ref", "A", "y"]]
+    for shape, subs, holders in FAMILY_SHAPES:
+        for holder in holders:
+            for k1 in ("cells", "space", "ref"):
+                for glob in ("none", "after", "before"):
+                    if glob == "before" and k1 != "ref":
+                        continue        # a cells / child space named like a model-level reference is refused anyway
+                    for also in (False, True):
+                        if also and (k1 == "ref" or holder == subs[0][2]):
+                            continue
+                        pre = [["new_space", "-", "A", []]] + subs
+                        if also:
+                            pre = pre + [["set_ref", subs[0][2], x, 8]]      # an earlier sub space overrides the name
+                        mref = [["set_mref", x, 10]]
+                        have = (mref if glob == "before" else []) + [family_member(k1, holder, x)] \
+                            + (mref if glob == "after" else [])
+                        arrivals = [(k2, [family_member(k2, "A", x, 2)]) for k2 in ("cells", "ref", "space") if k2 != k1]
+                        if k1 != "cells":
+                            arrivals.append(("cells by rename", [["new_cells", "A", "p", F(0, 2)], ["rename_cells", "A", "p", x]]))
+                        for k2, arr in arrivals:
+                            # the request, the re-deriving edits, the request again, deletion of what the base may hold
+                            ops = pre + have + arr + rederive + [arr[-1]] + rederive[:2]
+                            out.append(("%s, %s holds a %s%s%s; %s arrives in the base" % (
+                                shape, holder, k1, {"none": "", "after": ", model-level reference created afterwards",
+                                                    "before": ", model-level reference created before"}[glob],
+                                ", an earlier sub space overrides the name" if also else "", k2),
+                                [list(o) for o in ops]))
+    return out
+
+
+def run_family(out, stats, fam, hooks_factory, cfg, what, max_failures=6):
+    """run the programs of a scenario family through a property's hooks"""
+    refused = 0
+    for label, ops in fam:
+        sub = core.Outcome()
+        st = collections.Counter()
+        run_one([list(o) for o in ops], sub, st, hooks_factory(), cfg)
+        merge(out, sub)
+        refused += bool(sum(v for k, v in st.items() if k.startswith("rejected:")))
+        stats[what + "_scenarios"] += 1
+        if len([f for f in out.failures if not f.get("key")]) >= max_failures:
+            break
+    stats[what + "_refused"] = refused
+    return refused
+
+
 # ----------------------------------------------------------------------------- generic engine
 
 class Hooks:
@@ -574,40 +704,73 @@ class Hooks:
     def end(self, live, ops, out, stats): pass
 
 
+def observe(out, hist, what, fn, *args):
+    """run an observation (a hook of a property, a description of the model, an oracle's own replay).
+    An exception that comes out of the implementation while the harness merely LOOKS at the model is
+    itself an observation - the implementation left the model in a state that cannot be looked at -
+    and is reported as a failure with the history; anything else is a fault of the harness.
+    Returns (ok, result)."""
+    try:
+        return True, fn(*args)
+    except core.Infra:
+        raise
+    except Exception as e:
+        if not core.raised_by_impl(e):
+            raise
+        out.fail("the model cannot be observed %s: modelx raised %s" % (what, core.impl_error_text(e)),
+                 hist() if callable(hist) else hist)
+        return False, None
+
+
 def run_one(ops, out, stats, hooks, cfg, rng=None, n_ops=0, seed_ops=None, gen=None):
     close_all()
     live = W.Live("M")
     hooks.nontrivial = False
     focus = (2 if rng.random() < 0.5 else None) if rng is not None else None
     if rng is not None and not ops and gen is not None:
-        ops += clash_prefix(rng)
+        ops += clash_prefix(rng, cfg)
     elif rng is not None and not ops:
         ops += [list(o) for o in (seed_ops if seed_ops is not None else [["set_mref", "u", 11], ["set_mref", "r", 12]])]
         ops += motif(rng, pool=motifs_for(cfg))
     try:
         hooks.start(live, stats)
         k = 0
+        broken = False
         while True:
             if k >= len(ops):
                 if rng is None or k >= n_ops:
                     break
-                ops.append((gen or gen_next)(rng, live, cfg, ops, focus=focus))
+                ok, nxt = observe(out, lambda: hist_json(ops), "when choosing the next operation", lambda: (gen or gen_next)(rng, live, cfg, ops, focus=focus))
+                if not ok:
+                    broken = True
+                    break
+                ops.append(nxt)
             op = ops[k]
-            hooks.before(live, ops, k, op, stats)
+            ok, _ = observe(out, lambda: hist_json(ops, k - 1), "before %s" % op[0], hooks.before, live, ops, k, op, stats)
+            if not ok:
+                broken = True
+                break
             if op[0] == "evalall":
-                eval_everything(live)
+                ok, _ = observe(out, lambda: hist_json(ops, k), "by evaluating every cells", eval_everything, live)
+                if not ok:
+                    broken = True
+                    break
                 r = "ok"
             else:
                 r = live.apply(op)
             stats["op:" + op[0]] += 1
             if r.startswith("err") and op[0] != "eval":
                 stats["rejected:" + op[0]] += 1
-            hooks.after(live, ops, k, op, r, out, stats)
+            ok, _ = observe(out, lambda: hist_json(ops, k), "after %s (%s)" % (op[0], r.split(" ")[0]),
+                            hooks.after, live, ops, k, op, r, out, stats)
+            if not ok:
+                broken = True
+                break
             k += 1
             if len(out.failures) >= 3:
                 break
-        if len(out.failures) < 3:
-            hooks.end(live, ops, out, stats)
+        if len(out.failures) < 3 and not broken:
+            observe(out, lambda: hist_json(ops), "at the end of the history", hooks.end, live, ops, out, stats)
     finally:
         live.close()
         close_all()
@@ -644,7 +807,9 @@ def run_struct(ctx, out, prop, cfg, hooks_factory, n_quick, n_thorough, rule, op
                                          "and sampled pairs, each followed by evaluating everything" % (len(motifs_for(cfg)) - 1)
                                          + ("; extended families: every single edit after the extended motifs; (clearing edit of "
                                             "one cells, edit of an existing reference) pairs; (reference edit, value assignment, "
-                                            "reference edit) triples; cache-flag switch then reference edit" if cfg.get("ext") else "")
+                                            "reference edit) triples; cache-flag switch then reference edit; (input assigned, the cells redefined / "
+                                            "renamed / flag switched off and on / re-derived, everything evaluated, edit of a "
+                                            "reference visible in its space)" if cfg.get("ext") else "")
                                          if enumerate_single else ""),
                          "samples": samples, "input_distribution": dict(stats),
                          "corpus_cases": len(cases) - n, "traces_validated_against_impl": len(cases)})
@@ -757,32 +922,56 @@ MOTIFS_EXT = [
     [["new_space", "-", "D", []], ["new_space", "D", "X", []], ["set_ref", "D.X", "t", 1], ["set_ref", "D.X", "s", 2],
      ["new_cells", "D", "f", F(3, 1, "f", "t", "X")], ["new_cells", "D", "g", F(11, 1, "f", "s", "X")],
      ["new_cells", "D", "h", F(3, 2, "h", "t", "X")], ["new_cells", "D", "k", F(12, 1, "h", "u")]],
-    # a caller in one space, through a cells of ANOTHER space that reads a reference of its own space by
-    # name; a second caller elsewhere reaches the same cells through an object-valued reference
+    # a caller in one space, through cells of ANOTHER space that read a reference of their own space by
+    # name; a second caller elsewhere reaches the reader through an object-valued reference.  With failing
+    # evaluations in the middle of the chains: g reads the reference by name and is PARTIAL (fails for the
+    # argument 2); h (same space) calls g; f (parent space) calls h through a path; k CATCHES the failure of
+    # f; the caller in B reaches g directly.  Whatever is uncached, the values computed through it for the
+    # arguments 0 and 1 precede a rolled-back evaluation through it
     [["new_space", "-", "C", []], ["new_space", "C", "X", []], ["set_ref", "C.X", "s", 2],
-     ["new_cells", "C.X", "g", F(2, 1, "g", "s")], ["new_cells", "C", "f", F(4, 1, "g", "r", "X")],
+     ["new_cells", "C.X", "g", F(14, 2, "g", "s")], ["new_cells", "C.X", "h", F(1, 1, "g")],
+     ["new_cells", "C", "f", F(4, 1, "h", "r", "X")], ["new_cells", "C", "k", F(8, 3, "f")],
      ["new_space", "-", "B", []], ["set_ref", "B", "t", ["obj", "C.X.g"], "absolute"],
-     ["new_cells", "B", "h", F(9, 1, "h", "t")]],
+     ["new_cells", "B", "f", F(9, 1, "f", "t")]],
     # the same shape with the middle cells uncached from the start (no other cells of its space is a
     # precedent of the callers), and a chain above the caller
+    # (the middle cells is PARTIAL: its evaluation fails for the argument 2, after the successful ones)
     [["new_space", "-", "C", []], ["new_space", "C", "X", []], ["set_ref", "C.X", "s", 2],
-     ["new_cells", "C.X", "g", F(2, 1, "g", "s")], ["set_cached", "C.X", "g", 0],
+     ["new_cells", "C.X", "g", F(14, 2, "g", "s")], ["set_cached", "C.X", "g", 0],
      ["new_cells", "C", "f", F(4, 1, "g", "r", "X")], ["new_cells", "C", "h", F(1, 2, "f")],
      ["new_space", "-", "B", []], ["set_ref", "B", "t", ["obj", "C.X.g"], "absolute"],
      ["new_cells", "B", "k", F(9, 1, "k", "t")]],
 ]
 
 
-def motifs_for(cfg):
+def base_motifs(cfg):
     return MOTIFS + MOTIFS_EXT if cfg and cfg.get("ext") else MOTIFS
 
 
-def motif(rng, weights=None, pool=None):
-    pool = MOTIFS if pool is None else pool
+def motifs_for(cfg):
+    """the shared motif programs (with the extended ones for `ext`) plus the ones a property adds for itself
+    (cfg["extra_motifs"])"""
+    return base_motifs(cfg) + list((cfg or {}).get("extra_motifs", ()))
+
+
+def motif(rng, weights=None, pool=None, cfg=None):
+    if pool is None:
+        pool = motifs_for(cfg) if cfg is not None else MOTIFS
     if weights:
         weights = list(weights) + [1] * (len(pool) - len(weights))
     m = rng.choices(pool, weights)[0] if weights else rng.choice(pool)
     return [list(o) for o in m]
+
+
+def uncached_variants(m):
+    """the motif program with one of its cells uncached from its creation on (assignments to that name
+    are dropped: an uncached cells refuses them)"""
+    out = []
+    for i, o in enumerate(m):
+        if o[0] == "new_cells":
+            out.append([list(x) for x in m[:i + 1]] + [["set_cached", o[1], o[2], 0]]
+                       + [list(x) for x in m[i + 1:] if not (x[0] == "set_value" and x[2] == o[2])])
+    return out
 
 
 def single_edits(live, ext=False):
@@ -902,15 +1091,71 @@ def ext_sequences(live, edits, rng, exhaustive, thorough=False, cap_pairs=24, ca
     return pairs + triples
 
 
+def input_sequences(live, edits, rng, thorough=False, cap=10):
+    """the family "an INPUT, then the cells is redefined, evaluated again, then its namespace changes":
+      [assign a value to one element of a cached cells;
+       redefine that cells - a new formula (constant / reading a reference by name), a new name, the cache flag
+       switched off and on again, or (a derived cells) a new formula of the cells it derives from;
+       evaluate everything - the element that held the input now holds an ordinary computed value;
+       edit a reference visible in the cells' space (its own, one it derives, a model-level one, or a new one)]
+    followed, like every sequence, by evaluating everything.  The redefinition discards the input; what is computed at
+    the same argument afterwards must follow the reference edit like any other computed value.
+    Reference edits are *aimed*: those of a name the cells' (new) formula mentions are all used, of the others one
+    (seeded); thorough tier: all.  Quick tier: a seeded sample of `cap` sequences per motif."""
+    import re
+    spaces = W.all_spaces(live.m)
+    seqs = []
+    for path, s in spaces:
+        lin = [W.rel(live.m, b) for b in s.bases]
+        vis = [e for e in edits if (e[0] in ("set_ref", "del_ref") and (e[1] == path or e[1] in lin))
+               or e[0] in ("set_mref", "del_mref")]
+        for cn, c in s.cells.items():
+            if not c.is_cached:
+                continue
+            assign = [e for e in edits if e[0] == "set_value" and e[1:3] == [path, cn]][:1]
+            if not assign:
+                continue
+            redefs = []        # (ops, formula source afterwards)
+            definers = [path] + ([b for b in lin if cn in dict(spaces)[b].cells
+                                  and not dict(spaces)[b].cells[cn]._is_derived()][:1] if c._is_derived() else [])
+            for e in edits:
+                if e[0] == "set_formula" and e[2] == cn and e[1] in definers:
+                    redefs.append(([e], W.formula_src(cn, e[3])))
+            src = c.formula.source if c.formula is not None else ""
+            rn = [e for e in edits if e[0] == "rename_cells" and e[1:3] == [path, cn]][:1]
+            if rn:
+                redefs.append((rn, src))
+            redefs.append(([["set_cached", path, cn, 0], ["set_cached", path, cn, 1]], src))
+            for redef, after in redefs:
+                words = set(re.findall(r"[A-Za-z_]\w*", after or ""))
+                aimed = [e for e in vis if (e[2] if e[0] in ("set_ref", "del_ref") else e[1]) in words]
+                rest = [e for e in vis if e not in aimed]
+                chosen = vis if thorough else aimed + (rng.sample(rest, 1) if rest else [])
+                for d in chosen:
+                    seqs.append(assign + redef + [["evalall"], d])
+    if not thorough:
+        seqs = rng.sample(seqs, min(len(seqs), cap))
+    return seqs
+
+
 def enumerate_edits(ctx, out, prop, hooks_factory, cfg, stats, quick_per_motif=16, pairs_per_motif=6):
     """small-scope exhaustive part: after every motif program (everything evaluated), every
     applicable single edit (quick tier: a seeded sample), followed by evaluating everything
-    again; plus sampled pairs of edits.  Runs through the property's own hooks."""
+    again; plus sampled pairs of edits.  Runs through the property's own hooks.
+    With cfg["uncached_variants"] every motif program is also run with each one of its cells uncached
+    (quick tier: the edits of cfg["enum_always"] plus a small sample, no pairs)."""
     ext = bool(cfg.get("ext"))
+    nbase = len(base_motifs(cfg))
+    programs = []
     for mi, m in enumerate(motifs_for(cfg)):
         if not m:
             continue
-        is_ext_motif = mi >= len(MOTIFS)
+        programs.append((mi, m, False))
+        if cfg.get("uncached_variants"):
+            for vi, v in enumerate(uncached_variants(m)):
+                programs.append(("%s.u%d" % (mi, vi), v, True))
+    for mi, m, variant in programs:
+        is_ext_motif = isinstance(mi, int) and len(MOTIFS) <= mi < nbase
         prefix = [["set_mref", "u", 11], ["set_mref", "r", 12]] + [list(o) for o in m] + [["evalall"]]
         close_all()
         live = W.Live("M")
@@ -920,29 +1165,50 @@ def enumerate_edits(ctx, out, prop, hooks_factory, cfg, stats, quick_per_motif=1
                     eval_everything(live)
                 else:
                     live.apply(op)
-            edits = single_edits(live, ext=ext)
+            ok, edits = observe(out, hist_json(prefix), "after a motif program", single_edits, live, ext)
             rng = ctx.rng("enum", prop, mi)
-            extseqs = ext_sequences(live, edits, ctx.rng("enum-ext", prop, mi), exhaustive=is_ext_motif,
-                                    thorough=ctx.tier == "thorough") if ext else []
-            refed = ref_edits_existing(live, edits) if is_ext_motif else []
+            extseqs, refed = [], []
+            if ok:
+                extseqs = ext_sequences(live, edits, ctx.rng("enum-ext", prop, mi), exhaustive=is_ext_motif,
+                                        thorough=ctx.tier == "thorough") if ext and not variant else []
+                if ext and not variant:
+                    inseqs = input_sequences(live, edits, ctx.rng("enum-input", prop, mi),
+                                             thorough=ctx.tier == "thorough")
+                    stats["enumerated_input_sequences"] += len(inseqs)
+                    extseqs = extseqs + inseqs
+                refed = ref_edits_existing(live, edits) if is_ext_motif else []
         finally:
             live.close()
             close_all()
-        chosen = edits if ctx.tier == "thorough" else rng.sample(edits, min(len(edits), quick_per_motif))
+        if not ok:
+            continue
+        if variant:
+            edits = [e for e in edits if e[0] != "set_value"]
+        extra = isinstance(mi, int) and mi >= nbase
+        per = quick_per_motif if not variant else 4
+        if extra and cfg.get("extra_light"):
+            per = 6
+        chosen = edits if ctx.tier == "thorough" else rng.sample(edits, min(len(edits), per))
         chosen = chosen + [e for e in refed if e not in chosen]     # extended motifs: every edit of an existing reference
         chosen = chosen + [e for e in edits if e[0] in cfg.get("enum_always", ()) and e not in chosen]
+        if extra:
+            # a property's own motifs: also every edit of the kinds it names (e.g. adding ONE base anywhere)
+            chosen = chosen + [e for e in edits if e not in chosen and any(pred(e) for pred in cfg.get("extra_always", ()))]
         seqs = [[e] for e in chosen]
-        for _ in range(pairs_per_motif * (4 if ctx.tier == "thorough" else 1)):
+        if variant:
+            stats["uncached_variant_programs"] += 1
+        light = (variant or (extra and cfg.get("extra_light"))) and ctx.tier != "thorough"
+        for _ in range(0 if light else pairs_per_motif * (4 if ctx.tier == "thorough" else 1)):
             seqs.append([rng.choice(edits), ["evalall"], rng.choice(edits)])
         # structured pairs: a value edit / clear of one element, then a reference or base edit
         first = [e for e in edits if e[0] in ("set_value", "clear")]
         second = [e for e in edits if e[0] in ("set_ref", "del_ref", "set_mref", "remove_bases", "add_bases", "new_space")]
-        if first and second:
+        if first and second and not light:
             allpairs = [[a, b] for a in first for b in second]
             for pr in (allpairs if ctx.tier == "thorough" else rng.sample(allpairs, min(len(allpairs), 10))):
                 seqs.append(pr)
         # a base edit followed by an unrelated structural edit (orders must survive graph copies)
-        for e in [e for e in edits if e[0] == "add_bases" and len(e[2]) == 2][:(99 if ctx.tier == "thorough" else 4)]:
+        for e in [e for e in edits if e[0] == "add_bases" and len(e[2]) == 2][:(99 if ctx.tier == "thorough" else 4 if not light else 0)]:
             seqs.append([e, ["new_space", "-", "D" if not any(p == "D" for p in [x[2] for x in m if x[0] == "new_space"]) else "B", []]])
         seqs += extseqs
         stats["enumerated_ext_sequences"] += len(extseqs)
